@@ -202,6 +202,12 @@ class C12(Prop):
             elif k == 2:
                 clauses.append('p(%s(a, %s)) :- r(%s(b)).' % (q(h), q(self.hostile(src)), q(h)))
                 positions.append('functor-name')
+            elif k == 3 and src.n(3) == 0:
+                # a goal that calls the clause's own predicate (same name, same arity), also next to a variable spelled
+                # like the generated function
+                nm = src.pick(['nat', 'Nat', 'walk', 'P', h])
+                clauses.append(src.pick(["%s(s(X)) :- %s(X).", "%s(s(X)) :- {0}_1 = X, %s({0}_1).", "%s(X) :- r(X, Y), \\+ %s(Y)."]).replace('{0}', nm if nm.isidentifier() and nm[0].isupper() else 'Nat') % (q(nm), q(nm)))
+                positions.append('recursive-goal')
             elif k == 3:
                 clauses.append('g%d :- %s(a), r.' % (src.n(3), q(h)))
                 positions.append('goal-name')
